@@ -8,7 +8,17 @@
 
     [quirk_bsl_clears_sep] reproduces the code before the repair "fix: ReadArguments no longer
     panics ..." (the backslash branch also cleared isSeparated); the current tree is
-    [quirk := false].  Definitions only — proofs are in Proofs/Args.v. *)
+    [quirk := false].
+
+    Heredocs follow the repair F40: the text starts on the line behind the opening one (the value
+    is seeded with the newline that ended it, so the very next line may already be the marker
+    line and the text may be EMPTY); it ends where the value has the suffix NL+marker AND the next
+    byte is a blank, a tab or a newline (that byte is not part of the heredoc: the Go code hands
+    it back to its main loop, the model applies the main-mode step to it in place), or where the
+    input ends right behind NL+marker.  The scanner before F40 (terminator = the first place
+    where the value has the suffix NL+marker, whatever follows) is kept as [step_hd_old] /
+    [read_args_hd_old] for the regression witnesses.
+    Definitions only — proofs are in Proofs/Args.v. *)
 From GC Require Import Common.Base.
 
 Definition NL : byte := 10.
@@ -36,7 +46,8 @@ Inductive mode :=
 | Main
 | InQuote
 | HereMarker (base marker : bytes)            (* reading the terminator word after "=<<" *)
-| HereData (base eofseq value : bytes).       (* reading the body; eofseq = NL :: marker *)
+| HereData (base eofseq value : bytes).       (* reading the body; eofseq = NL :: marker;
+                                                 value starts as [NL] (F40) *)
 
 (** [args] is kept newest-first; the head is Go's args[len(args)-1]. *)
 Record st := mkSt { s_args : list bytes; s_esc : bool; s_sep : bool; s_mode : mode }.
@@ -48,6 +59,13 @@ Inductive step_res :=
 | Return (args : list bytes)   (* newline ended the command: (args, eof=false, nil) *)
 | Fail                         (* the Go code returns an error *)
 | Crash.                       (* the Go code panics *)
+
+(** TrimPrefix(value, NL) *)
+Definition strip_nl (v : bytes) : bytes :=
+  match v with c :: v' => if N.eqb c NL then v' else v | [] => [] end.
+(** The argument a finished heredoc leaves: [v] is the value still ending in the terminator. *)
+Definition here_value (base eofseq v : bytes) : bytes :=
+  base ++ trim (strip_nl (firstn (length v - length eofseq) v)).
 
 Definition set_cur (s : st) (cur : bytes) (rest : list bytes) (esc sep : bool) (m : mode) : st :=
   mkSt (cur :: rest) esc sep m.
@@ -84,21 +102,22 @@ Definition step (quirk : bool) (s : st) (c : byte) : step_res :=
     if N.eqb c NL then
       match m with
       | [] => Fail
-      | _ => Cont (mkSt (s_args s) (s_esc s) (s_sep s) (HereData base (NL :: m) []))
+      | _ => Cont (mkSt (s_args s) (s_esc s) (s_sep s) (HereData base (NL :: m) [NL]))
       end
     else if is_marker_char c then Cont (mkSt (s_args s) (s_esc s) (s_sep s) (HereMarker base (m ++ [c])))
     else if is_blank c then Cont s
     else Fail
   | HereData base eofseq v =>
-    let v' := v ++ [c] in
-    if has_suffix v' eofseq then
+    if has_suffix v eofseq && (is_blank c || N.eqb c NL) then
       match s_args s with
       | [] => Crash (* unreachable *)
       | _ :: rest =>
-        let value := firstn (length v' - length eofseq) v' in
-        Cont (mkSt ((base ++ trim value) :: rest) (s_esc s) (s_sep s) Main)
+        (* the heredoc is complete; [c] is processed by the main loop with
+           isEscaped = false, isSeparated = false *)
+        let args' := here_value base eofseq v :: rest in
+        if N.eqb c NL then Return (rev args') else Cont (mkSt args' false true Main)
       end
-    else Cont (mkSt (s_args s) (s_esc s) (s_sep s) (HereData base eofseq v'))
+    else Cont (mkSt (s_args s) (s_esc s) (s_sep s) (HereData base eofseq (v ++ [c])))
   end.
 
 (** Result of one ReadArguments call: [ROk args eof rest] — [rest] is what is left unread in the
@@ -113,6 +132,14 @@ Fixpoint run (quirk : bool) (s : st) (input : bytes) : read_res :=
   | [] =>
     match s_mode s with
     | Main => ROk (rev (s_args s)) true []
+    | HereData base eofseq v =>
+      (* the input ends right behind the marker: the command is complete *)
+      if has_suffix v eofseq then
+        match s_args s with
+        | [] => RPanic (* unreachable *)
+        | _ :: rest => ROk (rev (here_value base eofseq v :: rest)) true []
+        end
+      else RErr
     | _ => RErr
     end
   | c :: input' =>
@@ -138,6 +165,57 @@ Fixpoint read_all (fuel : nat) (input : bytes) : list read_res :=
   | S f =>
     match read_args input with
     | ROk a false rest => ROk a false [] :: read_all f rest
+    | r => [r]
+    end
+  end.
+
+(** ** The heredoc scanner before the repair F40 (regression witnesses only): the value starts
+    empty, the text ends at the FIRST place where the value has the suffix NL+marker whatever
+    follows, and an input that ends inside the heredoc is an error. *)
+Definition step_hd_old (s : st) (c : byte) : step_res :=
+  match s_mode s with
+  | HereMarker base m =>
+    if N.eqb c NL then
+      match m with
+      | [] => Fail
+      | _ => Cont (mkSt (s_args s) (s_esc s) (s_sep s) (HereData base (NL :: m) []))
+      end
+    else step false s c
+  | HereData base eofseq v =>
+    let v' := v ++ [c] in
+    if has_suffix v' eofseq then
+      match s_args s with
+      | [] => Crash
+      | _ :: rest =>
+        let value := firstn (length v' - length eofseq) v' in
+        Cont (mkSt ((base ++ trim value) :: rest) (s_esc s) (s_sep s) Main)
+      end
+    else Cont (mkSt (s_args s) (s_esc s) (s_sep s) (HereData base eofseq v'))
+  | _ => step false s c
+  end.
+
+Fixpoint run_hd_old (s : st) (input : bytes) : read_res :=
+  match input with
+  | [] =>
+    match s_mode s with
+    | Main => ROk (rev (s_args s)) true []
+    | _ => RErr
+    end
+  | c :: input' =>
+    match step_hd_old s c with
+    | Cont s' => run_hd_old s' input'
+    | Return args => ROk args false input'
+    | Fail => RErr
+    | Crash => RPanic
+    end
+  end.
+Definition read_args_hd_old (input : bytes) : read_res := run_hd_old init_st input.
+Fixpoint read_all_hd_old (fuel : nat) (input : bytes) : list read_res :=
+  match fuel with
+  | O => []
+  | S f =>
+    match read_args_hd_old input with
+    | ROk a false rest => ROk a false [] :: read_all_hd_old f rest
     | r => [r]
     end
   end.
